@@ -93,6 +93,8 @@ def rand_feats(rng, vars_pool, feats):
 def gen_fcfg(rng):
     nv = rng.randint(1, 3)
     vs = VARS[:nv]
+    if nv >= 2 and rng.chance(0.12):
+        vs = vs[:-1] + ["Gamma"]      # spelled like the Earley parser's own dummy start variable
     ts = TERMS[:rng.randint(1, 2)]
     feats = rng.pick([[], ["N"], ["N"], ["N", "P"]])
     prods = []
